@@ -200,11 +200,11 @@ type ALAddr struct {
 	Port int    `json:"port"`
 }
 type ALCase struct {
-	Max        int      `json:"max"`
-	ListenPort int      `json:"listen_port"`
-	ClientIP   uint32   `json:"client_ip"` // 0 = unknown
-	Blocked    []Rule   `json:"blocked"`
-	Ops        []ALOp   `json:"ops"`
+	Max        int    `json:"max"`
+	ListenPort int    `json:"listen_port"`
+	ClientIP   uint32 `json:"client_ip"` // 0 = unknown
+	Blocked    []Rule `json:"blocked"`
+	Ops        []ALOp `json:"ops"`
 }
 
 var alIPs = []uint32{0x05050101, 0x05050301, 0x05050102, 0x05060101, 0x7f000001, 0x7f000002, 0x0a000001, 0x0a000002, 0x0a000101, 0x62010203, 0x62010204, 0x62020203, 0xc0a80101}
@@ -288,7 +288,7 @@ func runAL(c ALCase) core.Result {
 	}
 	al := addrlist.New(c.Max, bl, c.ListenPort, &clientIP)
 	// model: entries certainly present + batches of which only a known number survive (which ones is free)
-	certain := map[uint32]*mEntry{}        // by priority
+	certain := map[uint32]*mEntry{} // by priority
 	type unc struct {
 		entries map[uint32]*mEntry
 		remain  int
